@@ -48,7 +48,7 @@ type zvC13Op struct {
 }
 
 type zvC13Case struct {
-	U    zvC13Uni   `json:"universe"`
+	U    zvC13Uni  `json:"universe"`
 	Hist []zvC13Op `json:"history"`
 }
 
